@@ -17,18 +17,25 @@ import (
 // C02 — playing a move yields the successor the rules prescribe; all views agree; source untouched.
 // Both are decided by walking game trees and playouts in lock-step with the reference oracle.
 
-func init() {
-	casesFn := func(tier string, seed int64) []fw.Case {
+// walkCases builds the shared C01/C02 case list; div shrinks the thorough sizes.
+// C02 does ~30x the work per position (every edge, every view), so it passes div > 1.
+func walkCases(tier string, seed int64, div int) []fw.Case {
+	{
 		var l []fw.Case
 		// full-tree differential perft from curated roots (one case per root), depth by tier
 		for i := range gen.StartFENs {
 			l = append(l, fw.Case{Idx: len(l), Kind: "tree", N: i, Seed: fw.Mix(seed, int64(i))})
 		}
-		l = mkCases(l, "synthtree", 32, seed, pick(tier, 40, 3000))
-		l = mkCases(l, "playout", 32, seed, pick(tier, 25, 2500))
-		l = mkCases(l, "tactic", 16, seed, pick(tier, 100, 5000))
+		l = mkCases(l, "synthtree", 32, seed, pick(tier, 40, 3000/div))
+		l = mkCases(l, "playout", 32, seed, pick(tier, 25, 2500/div))
+		l = mkCases(l, "tactic", 16, seed, pick(tier, 100, 5000/div))
 		return l
 	}
+}
+
+func init() {
+	casesFn := func(tier string, seed int64) []fw.Case { return walkCases(tier, seed, 1) }
+	casesC02 := func(tier string, seed int64) []fw.Case { return walkCases(tier, seed, 6) }
 	fw.Register(&fw.Monitor{
 		ID:        "C01",
 		Level:     "exploration",
@@ -49,14 +56,14 @@ func init() {
 		Run: func(c *fw.Ctx, cs fw.Case) { runWalk(c, cs, false) },
 	})
 	fw.Register(&fw.Monitor{
-		ID:        "C02",
-		Level:     "exploration",
-		Technique: "runtime differential oracle + internal-consistency invariants checked at every ply of lock-step tree walks and long playouts",
-		Rule: "every edge (position, legal move) of the same walks as C01 plus long histories: successor compared with the oracle on all 64 squares, per-piece/per-colour/occupancy sets, rotated occupancy rebuilt from scratch, castling rights, e.p. target, attack queries on 64 squares x 2 colours (sampled), FEN; the source position is value-compared before/after; illegal attempts must leave it untouched; distinct = distinct (position key, move) edges",
+		ID:          "C02",
+		Level:       "exploration",
+		Technique:   "runtime differential oracle + internal-consistency invariants checked at every ply of lock-step tree walks and long playouts",
+		Rule:        "every edge (position, legal move) of the same walks as C01 plus long histories: successor compared with the oracle on all 64 squares, per-piece/per-colour/occupancy sets, rotated occupancy rebuilt from scratch, castling rights, e.p. target, attack queries on 64 squares x 2 colours (sampled), FEN; the source position is value-compared before/after; illegal attempts must leave it untouched; distinct = distinct (position key, move) edges",
 		Assumptions: []string{"reference rules implementation (package ref), validated against published perft numbers at start-up"},
 		Setup:       validateOracle,
 		Timeout:     minutes(10, 90),
-		Cases:       casesFn,
+		Cases:       casesC02,
 		Floors: func(string) map[string]int64 {
 			return map[string]int64{
 				"edges": 20000, "edge_castle": 50, "edge_ep": 20, "edge_promotion": 100, "edge_rook_captured_on_home_with_right": 5,
